@@ -466,8 +466,10 @@ func (c *c03gen) render1(e ast.Expr, level int) string {
 		if c.r(3) == 0 {
 			op = "add"
 		}
-		l := c.render(e.X, 0)
-		if _, isadd := e.X.(ast.Add); !isadd {
+		var l string
+		if _, isadd := e.X.(ast.Add); isadd {
+			l = c.render(e.X, 0)
+		} else {
 			l = c.render(e.X, 1)
 		}
 		return c.join(l, op, c.render(e.Y, 1))
@@ -526,14 +528,6 @@ func (c *c03gen) renderScript(ss []ast.Statement) string {
 		}
 	}
 	return b.String()
-}
-
-// plain rendering (canonical spelling), used as a base for mutations
-func (c *c03gen) plain(ss []ast.Statement) string {
-	save := c.g.R
-	c.g.R = NewRNG(1)
-	defer func() { c.g.R = save }()
-	return c.renderScript(ss)
 }
 
 func genC03(g *Gen) {
